@@ -143,7 +143,8 @@ PROPS = {
             "the recipe S-expression sent to the model is produced from the real ScaledRecipe through its public accessors (harness/src/recipe_sexp.rs)"],
         "assumptions": ["mirror theorems: the core recipe's item indices are in range (C06's invariant) and it has at most 2^32 components of each kind (`usize as u32` in into_item)",
                         "combination theorems are over exact rationals and lists of at most 2^32 ingredients; text amounts are concatenated in input order and are outside the order-independence statement",
-                        "the view's metadata map is not modelled (the property does not mention it)",
+                        "the view's metadata map / parse_metadata: an entry of the core serde_yaml mapping enters the model as the pair (key.as_str(), value.as_str()) computed by serde_yaml (tagged scalars read as their untagged string); whether a front matter is valid YAML is outside the parser model, so ffi_parse is compared on accepted inputs and on rejected inputs without front matter",
+                        "the aisle wrapper theorems are about the model of src/aisle.rs of C11 (as repaired); parse_aisle_config's unwrap makes every rejected file a panic of the wrapper (the property is silent about it)",
                         "Range amounts, Number::Fraction values and inline-quantity items cannot be produced through parse_recipe (canonical parser, empty converter): those branches of into_simple_recipe are covered by the theorems on the model only; ranges in combine_ingredients are exercised through the FFI wire format"],
     },
     "C15": {
